@@ -124,6 +124,13 @@ def audit_run(ctx, run):
         if not wire.close(float(C["meat_summed_consumption"]), float(np.sum(meat_impl)), 1e-9, 1e-9 * scale * n):
             ctx.violation("meat-total-differs-from-series", "%s round %d: meat_summed_consumption %r but the monthly series sums to %r" % (
                 run.iso, case["round"], float(C["meat_summed_consumption"]), float(np.sum(meat_impl))), case)
+        # ... and the running total the LP caps cumulative meat eating with = the cumulative sum of that same monthly series
+        running = np.asarray(T["max_consumed_culled_kcals_each_month"], dtype=float)[:n]
+        cum = np.cumsum(meat_impl[:n])
+        if running.shape != cum.shape or not np.allclose(running, cum, rtol=1e-9, atol=1e-9 * scale * n):
+            m = int(np.argmax(np.abs(running - cum))) if running.shape == cum.shape else 0
+            ctx.violation("meat-running-total-differs-from-series", "%s round %d: the running total of meat handed to the optimiser is %r in month %d, the monthly series it is "
+                          "handed adds up to %r by then" % (run.iso, case["round"], float(running[m]), m, float(cum[m])), dict(case, month=m))
         # feed and grass
         feed_charged = np.asarray(T["feed"].kcals, dtype=float)
         feed_eaten = np.asarray(herd.feed_used.kcals if hasattr(herd.feed_used, "kcals") else herd.feed_used, dtype=float)[:n]
@@ -164,7 +171,14 @@ def correspondence(ctx):
     ps = list(lpcheck.PRESETS_QUICK) + [("IND", dict(meat_strategy="feed_only_ruminants")), ("NZL", dict(cull="dont_eat_culled")),
                                         # pastoral herds; an override of the large-animal carcass weight followed by a run without it
                                         ("MNG", dict(NMONTHS=48)), ("USA", dict(NMONTHS=48, kg_meat_per_large_animal=150, meat_strategy="baseline_breeding")),
-                                        ("USA", dict(NMONTHS=48, meat_strategy="baseline_breeding")), ("KEN", dict(NMONTHS=48))]
+                                        ("USA", dict(NMONTHS=48, meat_strategy="baseline_breeding")), ("KEN", dict(NMONTHS=48)),
+                                        # herds in which a species that has its own meat yield (chicken, pig) is absent while others of its size class are present
+                                        ("GRC", dict(NMONTHS=48)), ("USA", dict(NMONTHS=48, pig_head=0)), ("ARG", dict(NMONTHS=48, chicken_head=0)),
+                                        # present-day climate, breeding reduced, feed shut off late: the re-timing of meat between the no-feed and the fed herd really moves meat
+                                        ("MDG", dict(grasses="baseline", crop_disruption="zero", fish="baseline", scenario="no_resilient_foods", nutrition="baseline",
+                                                     ratio_stocks_untouched="baseline", shutoff="short_delayed_shutoff")),
+                                        ("AFG", dict(grasses="baseline", crop_disruption="zero", fish="baseline", scenario="no_resilient_foods", nutrition="baseline",
+                                                     ratio_stocks_untouched="baseline", shutoff="long_delayed_shutoff", NMONTHS=72))]
     isos = sorted(pipeline.country_rows())
     for _ in range(ctx.budget(2, 60)):
         ps.append(lpcheck.random_preset(ctx.rng, isos))
